@@ -16,6 +16,8 @@ import (
 	"runtime"
 	"sort"
 	"strings"
+	"sync"
+	"sync/atomic"
 	"syscall"
 )
 
@@ -115,6 +117,7 @@ func Run(f func()) {
 			out.Failures = append(out.Failures, "panic")
 		}
 	}()
+	defer stopWatchers()
 	f()
 	for _, fo := range frozen {
 		if !reflect.DeepEqual(fo.ptr.Elem().Interface(), fo.copy.Interface()) {
@@ -292,6 +295,40 @@ func Freeze(p any, what string) {
 	cp := reflect.New(v.Elem().Type()).Elem()
 	cp.Set(v.Elem())
 	frozen = append(frozen, frozenObj{what, v, cp})
+	// a write that is undone before the harness ends is still a write: a watcher
+	// polls the object for as long as the harness runs (a deliberately racy read)
+	stopc := watchStop
+	watchWG.Add(1)
+	go func() {
+		defer watchWG.Done()
+		for {
+			select {
+			case <-stopc:
+				return
+			default:
+			}
+			if !reflect.DeepEqual(v.Elem().Interface(), cp.Interface()) {
+				watchHit.Store(true)
+				return
+			}
+			runtime.Gosched()
+		}
+	}()
+}
+
+var (
+	watchStop = make(chan struct{})
+	watchWG   sync.WaitGroup
+	watchHit  atomic.Bool
+)
+
+func stopWatchers() {
+	close(watchStop)
+	watchWG.Wait()
+	watchStop = make(chan struct{})
+	if watchHit.Swap(false) {
+		out.Failures = append(out.Failures, "frozen-write")
+	}
 }
 
 func Stdout() string {
